@@ -89,6 +89,9 @@ def decl_specs(tier):
                 K = PKT('K', [('h', I(1)), ('n', I(1)), ('l', S(elem, F('n'), aligned=N)), ('z', I(1))], align=M)
                 specs.append({'P': K, 'tag': 'class-align %d elem-aligned %d %s' % (M, N, en), 'sig': 'element alignment under class align'})
                 specs.append({'P': PKT('W', [('pre', I(1)), ('body', R(K))]), 'tag': 'class-align %d elem-aligned %d %s b' % (M, N, en), 'sig': 'element alignment under class align'})
+    for sp in alphabet.boundary_specs():
+        if str(sp.get('tag', '')).startswith('far '):
+            specs.append(dict(sp, sig='far position'))
     # a byte-less field (Em / empty Data) placed beyond the data, followed by a non-empty field placed BEFORE it
     for far in (pos(EM(), 'at', C(6)), pos(EM(), 'aligned', C(4)), pos(D(C(0)), 'at', C(7)), pos(EM(), 'aligned', C(3), ref='innermost-pkt')):
         for back in (pos(I(1), 'at', C(2)), pos(D(C(2)), 'shift', C(-3)), pos(I(1), 'at', C(1), ref='begins')):
@@ -154,6 +157,11 @@ def check_one(dc, st, raw, start):
 def check_decl(dc, st, tier, only=None):
     if only is not None:
         check_one(dc, st, only['raw'], only.get('start', 0))
+        return
+    if dc.spec.get('extra_inputs'):
+        # far positions (holes longer than 255 / 256 / 4096 bytes): the given inputs only
+        for raw in dc.spec['extra_inputs']:
+            check_one(dc, st, raw, 0)
         return
     L = 3 if tier == 'quick' else 4
     syms = [0, 1, 2, 3, 4] if tier == 'thorough' else [0, 1, 2, 4]
